@@ -191,3 +191,58 @@ Proof.
     - destruct (vlive (snd s)); simpl; auto. }
   apply G. auto.
 Qed.
+
+(* ================================================================ the nested map's key-version counter *)
+(* HashSet bumps its crew version in Clear, in pvAddNogrow (a key was added), in pvRemove (a key was removed) and when the
+   table grows (HashSet.h:703, 733, 1145, 1213).  Growth only happens inside an insertion of a new key, so: the counter changes
+   iff the call adds or removes a key, or is Clear on a container that has keys (Clear on a container whose bucket array exists
+   but holds no key also bumps it; that case is not predicted by the model and not compared).  (How MANY times it is bumped depends on table growth and is not modelled.) *)
+Definition kver_changes (M : Z) (m : mm) (o : op) : bool :=
+  match o with
+  | OClear => negb (get_key_count m =? 0)      (* HashSet::Clear returns early (no bump) when no bucket array exists; with keys present it exists *)
+  | _ => negb (get_key_count (step1 M m o) =? get_key_count m)
+  end.
+
+Lemma add1_keys M m k t v : keys (fst (add1 M m k t v)) = keys (fst m) \/ keys (fst (add1 M m k t v)) = keys (fst m) ++ [k].
+Proof.
+  unfold add1. destruct (find k (fst m)); simpl; [left; apply keys_upd; auto|right; apply keys_app].
+Qed.
+
+Lemma add_range_keys M l : forall m,
+  let m' := fold_left (fun m0 x => add1 M m0 (fst (fst x)) (snd (fst x)) (snd x)) l m in
+  (length (keys (fst m)) <= length (keys (fst m')))%nat /\
+  (length (keys (fst m')) = length (keys (fst m)) -> keys (fst m') = keys (fst m)).
+Proof.
+  induction l as [|x l IH]; intros m; simpl; [split; auto|].
+  destruct (IH (add1 M m (fst (fst x)) (snd (fst x)) (snd x))) as [L1 L2].
+  destruct (add1_keys M m (fst (fst x)) (snd (fst x)) (snd x)) as [E|E]; rewrite E in L1, L2.
+  - split; auto.
+  - rewrite app_length in L1, L2. simpl in L1, L2. split; [lia|]. intros H. lia.
+Qed.
+
+(* if a call leaves the key version unchanged, the key list is unchanged (same keys, same order): a key iterator whose
+   version check passes still designates the same key *)
+Lemma remove_key_shorter k es e : find k es = Some e -> (length (remove_key k es) < length es)%nat.
+Proof.
+  induction es as [|a r IH]; simpl; [discriminate|]. destruct (ekey a =? k); simpl; [lia|]. intros F. specialize (IH F). lia.
+Qed.
+
+Theorem key_version_guards_keys M m o : kver_changes M m o = false -> keys (fst (step1 M m o)) = keys (fst m).
+Proof.
+  intros H. destruct o; try discriminate; unfold kver_changes in H; apply negb_false_iff in H; apply Z.eqb_eq in H;
+    unfold get_key_count in H; destruct m as [es n]; simpl in *; try reflexivity;
+    try (destruct es; [reflexivity|simpl in H; lia]).
+  - (* OAdd *) destruct (add1_keys M (es, n) k t v) as [E|E]; [exact E|].
+    apply (f_equal (@length Z)) in E. unfold keys in E. rewrite app_length, !map_length in E. simpl in E. lia.
+  - (* OAddAt *) destruct (find k es); simpl; [apply keys_upd; auto|reflexivity].
+  - (* OInsertKey *) destruct (find k es); simpl in *; [reflexivity|]. rewrite app_length in H. simpl in H. lia.
+  - (* ORemove *) destruct (find k es) as [e|]; simpl; [|reflexivity]. destruct (i <? length (evals e))%nat; simpl; [apply keys_upd; auto|reflexivity].
+  - (* ORemoveIf *) apply keys_map; auto.
+  - (* ORemoveValues *) destruct (find k es); simpl; [apply keys_upd; auto|reflexivity].
+  - (* ORemoveKey *) destruct (find k es) as [e|] eqn:F; simpl in *; [|reflexivity].
+    pose proof (remove_key_shorter k es e F). lia.
+  - (* OResetKey *) apply keys_upd; auto.
+  - (* OAddKey *) destruct (find k es); simpl in *; [reflexivity|]. rewrite app_length in H. simpl in H. lia.
+  - (* OAddRange *) destruct (add_range_keys M l (es, n)) as [_ L2]. apply L2. simpl.
+    unfold keys. rewrite !map_length. lia.
+Qed.
